@@ -8,7 +8,7 @@ are put together: `Duplex` holds the connection twice, once per direction, `ab` 
 endpoint B as the sender; `Same` says that the two views hold THE SAME two endpoints (`ab.a = ba.b`, `ab.b = ba.a`). Every
 step of the duplex system — an application send at either end, a keep-alive of either end, the delivery of any packet ever
 emitted in either direction to the other end's `handle`, any acknowledgement arriving at either end, a retransmission timer
-of either end firing, any packet with a signature its receiver does not expect arriving at either end — is one `Sys` step in each view (the main step in one, a frame step in the other); `duplex_step` shows
+of either end firing, any packet with a signature its receiver does not expect arriving at either end, a graceful `disconnect()` of either end — is one `Sys` step in each view (the main step in one, a frame step in the other); `duplex_step` shows
 the two views stay the same pair of endpoints and both stay coupled to their L2 channels. Hence (`duplex_safe`) in every
 reachable state what B's application can read is a prefix of what A's application sent AND what A's can read is a prefix
 of what B's sent — for every interleaving of the sends, deliveries, acknowledgements and timers of both directions.
@@ -42,6 +42,8 @@ inductive DOp where
   | resendB (now : Time) (p : Packet) (k : Nat)
   | injectA (now : Time) (p : Packet)     -- ANY packet whose signature is not the one A expects arrives at A (forged, corrupted, stray)
   | injectB (now : Time) (p : Packet)
+  | disconnectA (now : Time)              -- A's application: graceful `disconnect()`
+  | disconnectB (now : Time)
 
 /-- the step as seen in direction A→B -/
 def DOp.inAB (sub : Nat) (d : Duplex) : DOp → Option SysOp
@@ -61,6 +63,8 @@ def DOp.inAB (sub : Nat) (d : Duplex) : DOp → Option SysOp
   | .resendB now p k => some (.bFireResend now p k)
   | .injectA now p => some (.aInject now p)
   | .injectB now p => some (.inject now p)
+  | .disconnectA now => some (.disconnect now)
+  | .disconnectB now => some (.bDisconnect now)
 
 /-- the step as seen in direction B→A -/
 def DOp.inBA (sub : Nat) (d : Duplex) : DOp → Option SysOp
@@ -80,6 +84,8 @@ def DOp.inBA (sub : Nat) (d : Duplex) : DOp → Option SysOp
   | .resendB now p k => some (.fireResend now p k)
   | .injectA now p => some (.inject now p)
   | .injectB now p => some (.aInject now p)
+  | .disconnectA now => some (.bDisconnect now)
+  | .disconnectB now => some (.disconnect now)
 
 def Sys.stepO (env : Env) (sub : Nat) (s : Sys) : Option SysOp → Sys
   | none => s
@@ -156,6 +162,18 @@ theorem same_step (env : Env) (sub : Nat) (d : Duplex) (op : DOp) (h : d.Same) :
   | resendB now p k => refine ⟨?_, ?_⟩ <;> simp only [Duplex.step, DOp.inAB, DOp.inBA, Sys.stepO, Sys.step, ha, hb]
   | injectA now p => refine ⟨?_, ?_⟩ <;> simp only [Duplex.step, DOp.inAB, DOp.inBA, Sys.stepO, Sys.step, ha, hb]
   | injectB now p => refine ⟨?_, ?_⟩ <;> simp only [Duplex.step, DOp.inAB, DOp.inBA, Sys.stepO, Sys.step, ha, hb]
+  | disconnectA now =>
+    have hd : d.ab.a.state ≠ STATE_CONNECTED → (d.ab.a.disconnect env now).c = d.ab.a := by
+      intro h; unfold Conn.disconnect; rw [if_pos h]; rfl
+    by_cases hst : d.ab.a.state ≠ STATE_CONNECTED
+    · refine ⟨?_, ?_⟩ <;> simp only [Duplex.step, DOp.inAB, DOp.inBA, Sys.stepO, Sys.step, hst, ne_eq, not_false_eq_true, if_true, ← ha, hd hst, hb]
+    · refine ⟨?_, ?_⟩ <;> simp only [Duplex.step, DOp.inAB, DOp.inBA, Sys.stepO, Sys.step, hst, if_false, ← ha, hb]
+  | disconnectB now =>
+    have hd : d.ba.a.state ≠ STATE_CONNECTED → (d.ba.a.disconnect env now).c = d.ba.a := by
+      intro h; unfold Conn.disconnect; rw [if_pos h]; rfl
+    by_cases hst : d.ba.a.state ≠ STATE_CONNECTED
+    · refine ⟨?_, ?_⟩ <;> simp only [Duplex.step, DOp.inAB, DOp.inBA, Sys.stepO, Sys.step, hst, ne_eq, not_false_eq_true, if_true, hb, hd hst, ha]
+    · refine ⟨?_, ?_⟩ <;> simp only [Duplex.step, DOp.inAB, DOp.inBA, Sys.stepO, Sys.step, hst, if_false, hb, ha]
 
 /-- both directions coupled to their channels, over the same two endpoints -/
 structure DGood (env : Env) (sub : Nat) (ciA ciB : Cipher) (sizeA sizeB startA startB : Nat) (d : Duplex) (chAB chBA : Chan) : Prop where
@@ -249,6 +267,17 @@ theorem duplex_complete {env : Env} {sub : Nat} {ciA ciB : Cipher} {sizeA sizeB 
   refine ⟨(good_complete h.ab hallA hidleA (Or.inl hopenA)).1, ?_⟩
   rw [h.same.a]
   exact (good_complete h.ba hallB hidleB (Or.inl hopenB)).1
+
+/-- **graceful close in the duplex system**: if B has reached end-of-stream — which here can only happen through A's DISCONNECT
+    being released by B's window — and A's `disconnect()` was called while no `send` of A was between its fragments, B's
+    application had everything A's application sent before; and symmetrically -/
+theorem duplex_closed {env : Env} {sub : Nat} {ciA ciB : Cipher} {sizeA sizeB startA startB : Nat} {d : Duplex} {chAB chBA : Chan}
+    (h : DGood env sub ciA ciB sizeA sizeB startA startB d chAB chBA) :
+    (d.ab.b.eof = true → d.ab.clean = true → (d.ab.b.queues[sub]?.getD []) = d.ab.accepted) ∧
+    (d.ab.a.eof = true → d.ba.clean = true → (d.ab.a.queues[sub]?.getD []) = d.ba.accepted) := by
+  refine ⟨fun he hc => good_closed h.ab he hc, fun he hc => ?_⟩
+  rw [h.same.a] at he ⊢
+  exact good_closed h.ba he hc
 
 /-! ## the channel runs of the two directions, as lists of channel operations (for the liveness theorem) -/
 
